@@ -42,6 +42,10 @@ class CXX2C(Emitter, ExprMixin, LibMixin, StmtMixin):
         return out
 
     def run(self):
+        for en in self.u.get('enums', []):
+            e = self.find_enum(en)
+            if e is None: raise Unsupported('enum %s not found' % en)
+            self.need_enum(e)
         for spec in self.u['functions']:
             want_all = False
             if spec.endswith('*') and spec.endswith('::*'):
